@@ -752,6 +752,12 @@ def _den_covers(s, d, den, drv_it, drv_node, incs, name):
         if lock:
             return True, "the normaliser %s is advanced by exactly 1 in the same (or an enclosing) block as every increment" % cname
         return False, "the normaliser %s is a counter that does not advance with every increment of %s: the mean of [0,1] terms can exceed 1" % (cname, name)
+    sc = _sum_of_comp(den)
+    if sc is not None and tm.is_const(sc[0], 1):
+        # a counter advanced by 1 on every iteration of a loop, canonicalised to sum(1 for _ in X)
+        if sc[1] is drv_it or _same_coll(sc[1], drv_it):
+            return True, "the normaliser counts every iteration over that very collection"
+        return False, "but the normaliser counts the iterations over %s, a different collection" % tm.show(sc[1], 2)
     cf = count_form(den)
     if cf is not None:
         if _same_coll(cf[1], drv_it):
